@@ -125,7 +125,9 @@ impl InstructionGenerator {
         self.push(Instruction::PushRegisters, pos);
 
         // run loop body
+        self.for_depth += 1;
         self.visit(statements);
+        self.for_depth -= 1;
 
         // to be able to resume after an error at the last statement and then pop registers
         self.mark_statement_address();
